@@ -641,6 +641,32 @@ pub fn gen_driver(prop: &str, rng: &mut Rng, sh: &mut Shards, out: &str, thoroug
                     progs.push((Program { data: Vec::new(), items, interp: false, stdin: Vec::new(), note: format!("out-corner-{}-{}", cx, dl) }, Layout::plain()));
                 }
             }
+            // long output: strings of more than 1024 / 4096 bytes with bytes >= 80h (two bytes each on stdout) at the start,
+            // throughout, and only at the end; a character >= 80h repeated thousands of times.  The string is built in
+            // memory by the program itself (two REP STOS and a few stores)
+            for (k, (head, headn, midn, tail)) in [(0xE9u16, 1u16, 1023u16, [0x58u8, 0x59, 0x5A, 0x21]), (0xE9, 1500, 0, [0x45, 0x4E, 0x44, 0x2E]), (0x61, 1100, 0, [0xE9, 0xE9, 0x21, 0x21]), (0xFF, 5, 4200, [0x74, 0x61, 0x69, 0x6C])].iter().enumerate() {
+                let mut items: Vec<Item> = vec![Item::Label("start".into())];
+                items.push(mov16("di", 0x0300));
+                items.push(mov16("cx", *headn));
+                items.push(mov16("ax", *head));
+                items.push(Item::Ins(Ins::Str { op: "stos", w: 8, rep: "rep", repmn: "rep" }));
+                items.push(mov16("cx", *midn));
+                items.push(mov16("ax", 0x61 + k as u16));
+                items.push(Item::Ins(Ins::Str { op: "stos", w: 8, rep: "rep", repmn: "rep" }));
+                for (j, t) in tail.iter().enumerate() {
+                    items.push(Item::Ins(Ins::Mov { w: 8, dst: Opnd::Mem { seg: "", base: "", index: "di", disp: j as i32, has_disp: true }, src: Opnd::Imm(*t as i32) }));
+                }
+                items.push(mov16("bp", 0x0300));
+                items.push(mov16("cx", *headn + *midn + 4));
+                items.push(mov16("dx", 0x0003));
+                items.push(mov16("ax", 0x1300));
+                items.push(Item::Ins(Ins::Int { n: 0x10 }));
+                items.push(mov16("cx", 2000 + k as u16 * 700));
+                items.push(mov16("ax", 0x0A00 | [0xE9u16, 0x80, 0x7F, 0xFF][k]));
+                items.push(Item::Ins(Ins::Int { n: 0x10 }));
+                items.push(Item::Ins(Ins::Print { what: PrintWhat::Reg }));
+                progs.push((Program { data: Vec::new(), items, interp: false, stdin: Vec::new(), note: format!("out-long-{}", k) }, Layout::plain()));
+            }
             // every AH value for both interrupts (unsupported ones must be reported and stop the program)
             for n in [0x10u32, 0x21] {
                 for ah in 0..256u32 {
